@@ -221,6 +221,18 @@ def c01Accept (dt : DType F) (cls : Frappy.Err → Frappy.Node.Err) (j : JVal F)
   | .ok v => .ok v
   | .error e => .error (cls e)
 
+/-- the write wrapper's own `validate(v)`, from the datatype model -/
+def c01Reval (dt : DType F) (cls : Frappy.Err → Frappy.Node.Err) (v : PVal F) : Except Frappy.Node.Err (PVal F) :=
+  match Frappy.Datatypes.validate dt v none with
+  | .ok w => .ok w
+  | .error e => .error (cls e)
+
+/-- the datatype object of a parameter behaves, on the change path, as the datatype model says for the tree `dt`
+(this is what `acceptFaithfulB` verifies row by row on the implementation) -/
+structure IsC01 (ops : DtOps (JVal F) (PVal F)) (dt : DType F) (cls : Frappy.Err → Frappy.Node.Err) : Prop where
+  accept : ∀ j prev, ops.accept j prev = c01Accept dt cls j prev
+  revalidate : ∀ v, ops.revalidate v = c01Reval dt cls v
+
 end c01
 
 /-! ## concurrency: the limits in force at the moment of the driver call
